@@ -141,6 +141,19 @@ def _steps(t):
     return len(t["steps"])
 
 
+def renumbered(job, n):
+    """the same job on a device where endpoint number 1 and number n have changed places"""
+    if n == 1:
+        return job
+    from ..hosts import usb2ep_dev as ud
+    perm = {1: n, n: 1}
+    j = dict(job)
+    j["eps"] = ud.renumber_eps(job["eps"], perm)
+    j["script"] = ud.renumber(job["script"], perm)
+    j["meta"] = dict(job["meta"], ep_number=n)
+    return j
+
+
 # ======================================================================================================
 # classification of rejections (normalised cause, for known-finding signatures)
 # ======================================================================================================
@@ -628,6 +641,31 @@ def check_C11(rep):
         for ops, meta in gen_in_timing(m):
             if not quick or meta["where"] == "ack" or (meta["where"] == "retry_in2" and meta["shape"] in ("full", "short")):
                 jobs.append({"eps": in_eps(m), "script": ops, "seed": rep.seed, "speed": 0, "meta": dict(meta, max=m)})
+    # configuration coverage: max_packet_size 1, non powers of two, 2^k+-1, 512, 1024; endpoint numbers 3, 8, 15 (the
+    # endpoint under test changes places with number 1); FS device and HS assembly
+    ccfg = [(1, 15, None), (1, 15, 0), (5, 3, None), (7, 8, 0), (512, 15, None), (1024, 1, None)] if quick else \
+           [(1, 15, None), (1, 15, 0), (1, 1, 1), (5, 3, None), (5, 15, 0), (7, 8, 0), (9, 4, None), (63, 15, None),
+            (65, 3, 0), (512, 15, None), (512, 1, 0), (1024, 1, None), (1024, 15, 0)]
+    for m, n, speed in ccfg:
+        cj = []
+        if m >= 512:
+            data = [((i * 7 + m) & 0xFF, i == m) for i in range(m + 1)]          # MaxPkt+1 bytes, then exactly MaxPkt
+            data2 = [((i * 5 + 1) & 0xFF, i == m - 1) for i in range(m)]
+            ops = [("feed", 1, data), ("idle", 20), ("in", 1, "ack"), ("in", 1, "lost"), ("in", 1, "ack"),
+                   ("feed", 1, data2), ("idle", m + 10), ("in", 1, "ack"), ("in", 1, "bad"), ("in", 1, "ack"), ("end",)]
+            cj.append((ops, {"gen": "config-long"}))
+        else:
+            st = [x for x in gen_in_structured(m) if "ctl" not in x[1]["between"] or speed is None]
+            cj += st[::3] if quick else st
+            cj += [x for x in gen_in_timing(m) if x[1]["where"] in ("ack", "retry_in2") and
+                   x[1]["shape"] in ("full", "short") and (not quick or x[1]["delay"] % 2 == n % 2)]
+            for i in range(2 if quick else 10):
+                cj.append((gen_in_random(rep.rng, m, 4), {"gen": "random"}))
+            if speed is not None:
+                cj = [x for x in cj if not any(o[0] in ("setup", "ctl_in") or (o[0] == "out" and o[1] == 0) for o in x[0])]
+        for ops, meta in cj:
+            jobs.append(renumbered({"eps": in_eps(m), "script": ops, "seed": rep.seed, "speed": speed,
+                                    "meta": dict(meta, max=m, cfg="config-coverage")}, n))
     rnd = [(2, 10), (3, 8), (4, 8), (8, 8), (16, 4), (64, 2)] if quick else \
           [(2, 60), (3, 60), (4, 60), (5, 40), (8, 60), (16, 40), (32, 20), (64, 20)]
     for m, n in rnd:
@@ -1029,6 +1067,33 @@ def check_C13(rep):
                 jobs.append({"eps": out_eps(m, d), "script": gen_out_clean(rep.rng, m, d, 14), "speed": speed,
                              "seed": rep.rng.randrange(1 << 30), "gap": ph[0], "stall": ph[1],
                              "meta": {"gen": "random-clean", "max": m, "depth": d, "class": "clean"}})
+    # configuration coverage: max_packet_size 1 / non powers of two / 512 / 1024; buffer_size omitted (constructor
+    # default), a power of two, 2^k+1, just above MaxPkt; endpoint numbers 3, 8, 15; FS device and HS assembly
+    ccfg = [(1, None, 15, None), (1, None, 15, 0), (5, None, 3, 0), (7, 16, 8, None), (3, 4, 1, 0), (4, 9, 15, None),
+            (512, None, 15, None), (1024, 1030, 1, 0)] if quick else \
+           [(1, None, 15, None), (1, None, 15, 0), (1, 2, 1, 1), (5, None, 3, 0), (5, None, 3, None), (7, 16, 8, None),
+            (7, 8, 15, 0), (3, 4, 1, 0), (4, 9, 15, None), (4, 9, 15, 0), (63, None, 15, 0), (65, 129, 3, None),
+            (512, None, 15, None), (512, 1024, 1, 0), (1024, 1030, 1, 0), (1024, None, 15, None)]
+    for m, d, n, speed in ccfg:
+        cj = []
+        if m >= 512:
+            h = OutHost(None, m, d if d is not None else 2 * m - 1, clean=False)
+            h.val = m & 0xFF
+            h.ops += [("out", 1, 0, h.payload(m), True), ("idle", m + 6), ("out", 1, 1, h.payload(17), True),
+                      ("idle", 24), ("cons", 1, ("stall",)), ("out", 1, 0, h.payload(m), True),
+                      ("out", 1, 1, h.payload(m if d is None else 7), True), ("ping", 1),
+                      ("cons", 1, ("ready",)), ("idle", m + 30)]
+            h.ops += [h.ops[-4], ("idle", m + 6), ("end",)]        # the host repeats the packet with the same toggle
+            cj.append((h.ops, {"gen": "config-long", "class": "sweep"}))
+        else:
+            dd = d if d is not None else 2 * m - 1
+            cj += gen_out_space_sweep(m, dd) + gen_out_ping_sweep(m, dd)
+            cj += gen_out_overflow_resume(m, dd, lens=(m,), frees=(0,))[::2 if quick else 1] if m >= 2 else []
+            for i in range(2 if quick else 10):
+                cj.append((gen_out_clean(rep.rng, m, dd, 12), {"gen": "random-clean", "class": "clean"}))
+        for ops, meta in cj:
+            jobs.append(renumbered({"eps": out_eps(m, d), "script": ops, "seed": rep.seed, "speed": speed,
+                                    "meta": dict(meta, max=m, depth=d, cfg="config-coverage")}, n))
     # witness classes
     for m, d in ((4, 7), (8, 15), (2, 3)) if quick else ((2, 3), (3, 5), (4, 7), (8, 15), (8, 20), (16, 31)):
         for i in range(2 if quick else 6):
@@ -1299,6 +1364,17 @@ def check_C14(rep):
             for ops, meta in gen_c14_ping(m, d, rep.seed, with_clear=False):
                 jobs.append({"eps": c14_eps(m, d), "script": ops, "seed": rep.seed, "speed": speed,
                              "meta": dict(meta, max=m)})
+    # configuration coverage: endpoint number 15 / 8 in BOTH directions (the SETUP's wIndex is rewritten accordingly;
+    # CLEAR_FEATURE targets then are (15,in) (15,out) (2,in) (2,out) (3,in)), MaxPkt 1 / 5, default buffer size
+    for m, d, n in ([(4, 7, 15), (5, None, 8), (1, None, 15)] if quick else
+                    [(4, 7, 15), (5, None, 8), (1, None, 15), (7, 16, 15), (64, None, 9), (2, 3, 15)]):
+        cj = gen_c14_structured(m, d if d is not None else 2 * m - 1, rep.seed)
+        cj = cj[(n % 5)::5] if quick else cj
+        cj += [x for i, x in enumerate(gen_c14_ping(m, d if d is not None else 2 * m - 1, rep.seed))
+               if not quick or i % 4 == n % 4]
+        for ops, meta in cj:
+            jobs.append(renumbered({"eps": c14_eps(m, d), "script": ops, "seed": rep.seed,
+                                    "meta": dict(meta, max=m, cfg="config-coverage")}, n))
     for m, d in ([(4, 7)] if quick else [(2, 3), (4, 7), (8, 15)]):
         for ops, meta in gen_c14_interleaved(m, d, rep.seed):
             jobs.append({"eps": c14_eps(m, d), "script": ops, "seed": rep.seed, "meta": dict(meta, max=m)})
